@@ -21,6 +21,7 @@ type GenOpts struct {
 	Meta      bool
 	ExactLines int // when > 0: exactly this many instruction lines (plain programs only)
 	EndLabel  bool // allow a label on the END line
+	ManyLabels bool // one label per line
 }
 
 // the pools contain names that differ from a name of another pool only by letter case (gap/Gap, step/Step/STEP,
@@ -38,6 +39,7 @@ type genState struct {
 	equs   []string
 	ctrs   []string // counters in scope
 	countEqus []string // EQUs already written out (usable in FOR counts)
+	labelEqus []string // EQUs whose text mentions a label (operands only)
 }
 
 // small literal biased to interesting values
@@ -200,7 +202,12 @@ func GenProg(r Rand, o GenOpts) *Prog {
 
 	// decide names up front so that forward references are possible
 	var allLabels []string
-	if o.UseLabels {
+	if o.ManyLabels && !o.UseFor {
+		// one generated label per line (more than 256 of them when the program is long enough)
+		for k := 0; k < n; k++ {
+			allLabels = append(allLabels, fmt.Sprintf("m%d_", k))
+		}
+	} else if o.UseLabels {
 		perm := r.Intn(len(labelPool))
 		for k := 0; k < 1+r.Intn(5); k++ {
 			allLabels = append(allLabels, labelPool[(perm+k*7)%len(labelPool)])
@@ -230,8 +237,11 @@ func GenProg(r Rand, o GenOpts) *Prog {
 		}
 		// every other label must be placed exactly once
 		labelAt := map[int][]string{}
-		for _, l := range place {
+		for i, l := range place {
 			k := r.Intn(n)
+			if o.ManyLabels {
+				k = i % n
+			}
 			labelAt[k] = append(labelAt[k], l)
 		}
 		for k := 0; k < n; k++ {
@@ -499,6 +509,13 @@ func (g *genState) genForProgram(p *Prog, allLabels []string, n int, pending []I
 				}
 			}
 			p.Items = append(p.Items, ins)
+			if len(ins.Labels) > 0 && r.Intn(3) == 0 {
+				// an EQU whose text mentions an instruction label (usable in operands, never in FOR counts)
+				name := fmt.Sprintf("le%d", len(g.labelEqus))
+				p.Items = append(p.Items, &Equ{Name: name, E: Bin{"+-"[r.Intn(2)], Ref{ins.Labels[0]}, Lit{V: r.Intn(4)}}})
+				g.labelEqus = append(g.labelEqus, name)
+				g.equs = append(g.equs, name)
+			}
 		}
 	}
 	for len(pending) > 0 {
